@@ -42,6 +42,8 @@ for _id in ("C01", "C02", "C03", "C04", "C05", "C06", "C07", "C08", "C09", "C10"
         P(f"seed {_id}_h (eighth round)", _id, f"seeded/{_id}_h/patch.diff")
     if _os_path_exists(f"seeded/{_id}_i/patch.diff"):
         P(f"seed {_id}_i (ninth round)", _id, f"seeded/{_id}_i/patch.diff")
+    if _os_path_exists(f"seeded/{_id}_j/patch.diff"):
+        P(f"seed {_id}_j (tenth round)", _id, f"seeded/{_id}_j/patch.diff")
 
 # ------------------------------------------------------------------ behaviour-preserving refactorings written by independent sub-agents
 # (refactors/r*/patch.diff, each passes the 79 tests): every check must stay silent (exit 0) on every one of them
@@ -433,7 +435,7 @@ V("realpath wrapper (equivalent)", "C16", C, "    file_size = os.path.getsize(fi
 V("verify ignores the previous path", "C17", C, "                    history_relative_path = media_hash.previous_path or history_relative_path\n                    break\n\n            if single_file", "                    break\n\n            if single_file", "R17.3")
 V("record indexed under its current path only", "C17", "ascmhl/hashlist.py", "        self.media_hashes_path_map[media_hash.previous_path or media_hash.path] = media_hash\n", "", "R17.1")
 V("first entry of the new record compared", "C17", C, "                new_path_hash = new_path_media_hash.find_hash_entry_for_format(not_found_path_hash.hash_format)", "                new_path_hash = new_path_media_hash.hash_entries[0] if new_path_media_hash.hash_entries else None", "R17.4")
-V("matched path not removed from the missing set", "C17", C, "                        found_file_paths.add(not_found_path)\n                else:", "                else:", "R17.4")
+V("matched path not removed from the missing set", "C17", C, "                        found_file_paths.add(not_found_path)\n                elif not os.path.isdir(os.path.join(root_path, new_path)):", "                elif not os.path.isdir(os.path.join(root_path, new_path)):", "R17.4")
 V("diff without the rename rewrite", ["C17", "C03"], C, """    renamed_files = existing_history.renamed_path_with_previous_path()
     not_found_paths = {p if renamed_files.get(p, None) is None else renamed_files[p] for p in not_found_paths}
 
@@ -659,7 +661,7 @@ V("mutscan2: verify -pl branch emptied (falls through to the plain verify)", "C1
         )
         return""", """    if packing_list is not None:
         pass""", "R18.4")
-V("mutscan2: the previous-path search of diff looks at the first generation only", "C17", C, """            for hash_list in existing_history.hash_lists:
+V("mutscan2: the previous-path search of diff looks at the first generation only", "C17", C, """            for hash_list in history.hash_lists:
                 for media_hash in hash_list.media_hashes:
                     if media_hash.path != history_relative_path:
                         continue
@@ -667,7 +669,7 @@ V("mutscan2: the previous-path search of diff looks at the first generation only
                     break
 
             # check if there is an existing hash in the other generations and verify
-            original_hash_entry = history.find_original_hash_entry_for_path(history_relative_path)""", """            for hash_list in list(existing_history.hash_lists)[:1]:
+            original_hash_entry = history.find_original_hash_entry_for_path(history_relative_path)""", """            for hash_list in list(history.hash_lists)[:1]:
                 for media_hash in hash_list.media_hashes:
                     if media_hash.path != history_relative_path:
                         continue
@@ -691,3 +693,20 @@ V("hand: verify binds a generator of the files' children once and consumes it pe
                 pass
             file_path = os.path.join(folder_path, item_name)
             not_found_paths.discard(file_path)""", "R3.13")
+V("fix 276a691 undone: a new directory is re-hashed as a file in the rename matching", "C17", C, "                elif not os.path.isdir(os.path.join(root_path, new_path)):\n                    old_hash_format_for_new_path", "                else:\n                    old_hash_format_for_new_path", "R17.9")
+V("fix 11ce657 undone (verify): previous path searched in the root history's generations", "C17", C, """            for hash_list in history.hash_lists:
+                for media_hash in hash_list.media_hashes:
+                    if media_hash.path != history_relative_path:
+                        continue
+                    history_relative_path = media_hash.previous_path or history_relative_path
+                    break
+
+            if single_file""", """            for hash_list in existing_history.hash_lists:
+                for media_hash in hash_list.media_hashes:
+                    if media_hash.path != history_relative_path:
+                        continue
+                    history_relative_path = media_hash.previous_path or history_relative_path
+                    break
+
+            if single_file""", "R17.3")
+V("directory test of the rename matching with the wrong polarity", "C17", C, "                elif not os.path.isdir(os.path.join(root_path, new_path)):", "                elif os.path.isdir(os.path.join(root_path, new_path)):", "R17.9")
